@@ -107,6 +107,32 @@ def check_diagram(rep, d, others):
     rep.case(r, nontrivial=n > 0)
 
 
+def check_mixed_classes(rep):
+    """boxes typed by plain monoidal types meet rigid diagrams with adjoint wires: a composition is refused, or well-typed
+    wire by wire (name and winding number)"""
+    n, s_ = rigid.Ty('n'), rigid.Ty('s')
+    mn, ms = monoidal.Ty('n'), monoidal.Ty('s')
+    h, k = monoidal.Box('h', mn, ms), monoidal.Box('k', ms, mn @ mn)
+    f = rigid.Box('f', rigid.Ty('x'), n.r)
+    verb = rigid.Box('verb', rigid.Ty(), n.r @ s_)
+    cases = [('f >> h', lambda: f >> h), ('verb >> h @ Id(s)', lambda: verb >> h @ monoidal.Id(ms)),
+             ('Cap(n, n.l) >> Id(n) @ h', lambda: rigid.Cap(n, n.l) >> rigid.Id(n) @ h),
+             ('k >> Cup(n, n.r)', lambda: k >> rigid.Cup(n, n.r)), ('h >> Box(s.l -> n)', lambda: h >> rigid.Box('g', s_.l, n)),
+             ('Id(n.l) @ f >> h @ h', lambda: rigid.Id(n.l) @ rigid.Box('a', rigid.Ty(), n) >> h @ h),
+             # plain (z = 0) rigid wires do meet plain monoidal boxes
+             ('Box(x -> n) >> h', lambda: rigid.Box('f0', rigid.Ty('x'), n) >> h)]
+    for what, thunk in cases:
+        rep.case(('mixed', what))
+        got = common.outcome(thunk)
+        if got[0] == 'exc':
+            if got[1] is not AxiomError:
+                rep.fail('C01:mixed.refuses', 'raised %r' % (got[1],), what)
+            continue
+        why = common.wf_reason(got[1])
+        if why:
+            rep.fail('C01:mixed.wf', 'accepted but ' + why, what)
+
+
 def check_constructor(rep, boxes, doms):
     """ill-typed requests are refused; accepted ones are wf"""
     for dom in doms:
@@ -278,6 +304,7 @@ def run(tier, seed=0, shard=(0, 1)):
     if shard[0] == 1 % shard[1]:
         check_box_catalogue(rep)
         check_cat(rep)
+        check_mixed_classes(rep)
     mtys = [monoidal.Ty(), x, y, x @ y, x @ x @ y]
     check_structural(rep, mtys, monoidal.Diagram, shard)
     rx, ry = rigid.Ty('x'), rigid.Ty('y')
